@@ -111,6 +111,8 @@ type confirmedViolation struct {
 	Info      bool   `json:"informational,omitempty"`
 }
 
+var xcheckGlobal []map[string]any
+
 var (
 	repoRoot    = "/repo"
 	verifRoot   = "/verif"
@@ -361,6 +363,55 @@ func runCheck(prop, tier string, seed int, only string, workers int, solver stri
 			}
 		}
 	}
+	// second-solver cross-check (thorough tier, or VERIF_XCHECK=1): every job is
+	// re-run at its quick bound with the primary solver and with an independent
+	// back end (cvc5 for symgo jobs; z3 4.8.12 for the BMC queries, whose tactic
+	// script cvc5 does not read); the two runs must agree on paths, outcomes and
+	// discharged assertions. A disagreement makes the check inconclusive.
+	var xcheck []map[string]any
+	if (tier == "thorough" || os.Getenv("VERIF_XCHECK") == "1") && os.Getenv("VERIF_XCHECK") != "0" {
+		for _, js := range spec.Jobs {
+			if js.ThoroughOnly {
+				continue
+			}
+			for _, inst := range expand(js, "quick") {
+				if only != "" && !strings.Contains(inst.name, only) {
+					continue
+				}
+				sig := func(jr *jobResult) string {
+					var ks []string
+					for k, v := range jr.ByKind {
+						ks = append(ks, fmt.Sprintf("%s=%d", k, v))
+					}
+					sort.Strings(ks)
+					var cs []string
+					for _, c := range jr.Confirmed {
+						cs = append(cs, c.Assertion)
+					}
+					sort.Strings(cs)
+					return fmt.Sprintf("paths=%d %s asserts=%d unknown=%d truncated=%v violations=%v", jr.Paths, strings.Join(ks, ","), jr.Asserts, jr.Unknown, jr.Truncated, cs)
+				}
+				var a, b *jobResult
+				second := "cvc5"
+				if js.Engine == "tsgen" {
+					second = "z3"
+					a = runTsgenJob(prog, inst, "quick", workers, solver, replayer, false)
+					b = runTsgenJob(prog, inst, "quick", workers, second, replayer, false)
+				} else {
+					a = runSymgoJob(prog, inst, "quick", workers, solver, replayer, false)
+					b = runSymgoJob(prog, inst, "quick", workers, second, replayer, false)
+				}
+				agree := sig(a) == sig(b)
+				xcheck = append(xcheck, map[string]any{"job": inst.name, "bound": "quick", "primary": solver, "secondary": second, "primary_result": sig(a), "secondary_result": sig(b), "agree": agree,
+					"primary_solver_s": a.SolverS, "secondary_solver_s": b.SolverS})
+				fmt.Printf("xcheck %-40s %s vs %s: agree=%v (%s)\n", inst.name, solver, second, agree, sig(b))
+				if !agree {
+					inconclusive = append(inconclusive, fmt.Sprintf("job %s: solvers disagree at the quick bound: %s: %s / %s: %s", inst.name, solver, sig(a), second, sig(b)))
+				}
+			}
+		}
+	}
+	xcheckGlobal = xcheck
 	for _, m := range inconclusive {
 		fmt.Println("INCONCLUSIVE property=" + prop + " reason=" + m)
 	}
@@ -800,6 +851,7 @@ func writeEvidence(path, prop, tier string, seed int, spec *Spec, results []*job
 			"undischarged":                  inconclusive,
 			"confirmed_counterexamples":     known,
 			"trusted_base":                  spec.Trusted,
+			"second_solver_crosscheck":      xcheckGlobal,
 		},
 	}
 	b, _ := json.MarshalIndent(ev, "", " ")
